@@ -176,13 +176,13 @@ func checkC09(p *Prog, r *Report) {
 		r.Unknown("R09a", "implementations", token.NoPos, fmt.Sprintf("expected at least two implementations of disk.Disk, found %d", len(dc.impls)))
 	}
 	for _, im := range dc.impls {
-		dc.ruleGuards(r, im)
-		dc.ruleOwnership(r, im)
+		dc.ruleGuards2(r, im)
+		dc.ruleOwnership2(r, im)
 	}
 	dc.ruleRefusalLeavesUsable(r)
 	dc.ruleImmutable(r)
 	dc.ruleZeroInit(r)
-	dc.ruleWrappers(r)
+	dc.ruleWrappers2(r)
 	dc.ruleAsync(r)
 }
 
@@ -635,16 +635,7 @@ func (dc *diskCtx) ruleAsync(r *Report) {
 			}
 			r.Func(FuncName(f))
 			// single static call to disk.<name> with parameters forwarded
-			dc.checkForwarder(r, "R09f", f, name, false)
-			callsTarget := false
-			for _, b := range f.Blocks {
-				for _, in := range b.Instrs {
-					if c, ok := in.(*ssa.Call); ok && calleeOf(&c.Call) == target {
-						callsTarget = true
-					}
-				}
-			}
-			r.Check("R09f", "func async_disk."+name+" target", o.Pos(), callsTarget, "must call disk."+name)
+			dc.checkForwarder2(r, "R09f", f, fullName(target), "")
 		case *types.Var:
 			r.Fail("R09f", "var async_disk."+name, o.Pos(), "exported variable: async_disk must not have state of its own", "")
 		}
@@ -769,11 +760,6 @@ func (p *Prog) runLockRules(r *Report, ls lockSpec, owner *types.Named) {
 	run := func(f *ssa.Function, entry cfgSet, isHelper bool) map[*ssa.Function]cfgSet {
 		r.Func(FuncName(f))
 		req := required(f)
-		recv := ""
-		if len(f.Params) > 0 {
-			recv = f.Params[0].Name()
-		}
-		wantKey := recv + "." + ls.mutex
 		fname := ls.typeName + "." + f.Name()
 		seenAccess := map[ssa.Instruction]bool{}
 		return p.lockAnalysis(f, entry, scope, mp, func(ev lockEvent) {
@@ -785,17 +771,17 @@ func (p *Prog) runLockRules(r *Report, ls lockSpec, owner *types.Named) {
 				}
 				seenAccess[ev.In] = true
 				r.Sites++
-				have := heldAll(ev.Cfgs, wantKey)
+				have := heldAllSuffix(ev.Cfgs, "."+ls.mutex)
 				what := "read"
 				if m == 2 {
 					what = "write"
 				}
 				key := fmt.Sprintf("%s %s of guarded state: %s", fname, what, accessDesc(ev.In))
 				if have >= m {
-					r.OK(ls.rule, key, instrPos(ev.In), fmt.Sprintf("lock %s is %s on every path", wantKey, modeName[have]))
+					r.OK(ls.rule, key, instrPos(ev.In), fmt.Sprintf("the %s lock is %s on every path", ls.mutex, modeName[have]))
 				} else {
 					r.Fail(ls.rule, key, instrPos(ev.In),
-						fmt.Sprintf("%s access needs %s %s but on some path it is %s", what, wantKey, modeName[m], modeName[have]),
+						fmt.Sprintf("%s access needs the %s lock %s but on some path it is %s", what, ls.mutex, modeName[m], modeName[have]),
 						p.blockPath(f, ev.In.Block()))
 				}
 			case "exit-return":
@@ -979,7 +965,7 @@ func checkC10(p *Prog, r *Report) {
 				continue
 			}
 			nMutexImpl++
-			ls := lockSpec{rule: "R10a", typeName: im.Name, methods: im.Methods, helpers: map[*ssa.Function]bool{}, mutex: mfs[0],
+			ls := lockSpec{rule: "R10a", typeName: im.Name, methods: im.Methods, helpers: dc.lockScope(im), mutex: mfs[0],
 				protected: func(o *types.Named, f string) bool {
 					st := o.Underlying().(*types.Struct)
 					for i := 0; i < st.NumFields(); i++ {
@@ -992,13 +978,15 @@ func checkC10(p *Prog, r *Report) {
 				exemptLen: true, // sound because R09d shows the slice header is never reassigned
 			}
 			p.runLockRules(r, ls, im.Named)
-			for _, mn := range sortedKeys(im.Methods) {
-				p.lockIdentity(r, "R10c", im.Name, im.Methods[mn])
+			_, reg := dc.computeRoles(im)
+			for _, f := range reg {
+				p.lockIdentity(r, "R10c", im.Name, f)
 			}
 		} else {
 			// file-backed: positioned I/O only
-			for _, mn := range sortedKeys(im.Methods) {
-				f := im.Methods[mn]
+			_, reg := dc.computeRoles(im)
+			for _, f := range reg {
+				mn := f.Name()
 				r.Func(FuncName(f))
 				p.instrs(f, func(b *ssa.BasicBlock, i int, in ssa.Instruction) {
 					if _, name, ok := unixCall(in); ok {
@@ -1076,7 +1064,7 @@ func (dc *diskCtx) ruleRefusalLeavesUsable(r *Report) {
 		if len(mfs) != 1 {
 			continue
 		}
-		ls := lockSpec{rule: "R09i", typeName: im.Name, methods: im.Methods, helpers: map[*ssa.Function]bool{}, mutex: mfs[0],
+		ls := lockSpec{rule: "R09i", typeName: im.Name, methods: im.Methods, helpers: dc.lockScope(im), mutex: mfs[0],
 			protected: func(o *types.Named, f string) bool { return false }, exemptLen: true}
 		dc.p.runLockRules(r, ls, im.Named)
 	}
